@@ -432,6 +432,10 @@ def run(prog, rep, tier):
     rep.floor('HOOKS-schedule', 5)
     rep.floor('HCFLAG-heff', 8)
     rep.assumptions += ['energies, convergence, canonical form of results are NOT decided']
+    from ..flow import check_dead_computations
+    rep.rule('VALUE-dead', 'no result of a call is bound to a local that is never read (reaching '
+             'definitions)')
+    check_dead_computations(prog, rep, ['tenpy/algorithms/mps_common.py', 'tenpy/algorithms/dmrg.py', 'tenpy/algorithms/vumps.py'])
     return rep.finish(
         level='other',
         explanation='Protocol facts of the sweep framework decided per engine class: hook keys '
